@@ -162,7 +162,7 @@ func (c15) Gen(r *rand.Rand, tier string, idx int) *core.Plan {
 		case x < 18:
 			p.Ops = append(p.Ops, core.Op{Task: 1, Kind: "sleep", I: []int64{int64(time.Duration(1+r.IntN(5000)) * time.Millisecond)}})
 		default:
-			p.Ops = append(p.Ops, core.Op{Task: 1, Kind: "corrupt", S: []string{core.Pick(r, "truncate", "empty", "foreign", "null", "garbage", "flip", "swap", "zero", "delta-garbage", "base-garbage", "delta-garbage", "trailing-garbage", "trailing-entry", "trailing-foreign")}, I: []int64{u(), int64(r.IntN(1001)), int64(r.IntN(8))}})
+			p.Ops = append(p.Ops, core.Op{Task: 1, Kind: "corrupt", S: []string{core.Pick(r, "truncate", "empty", "foreign", "null", "garbage", "flip", "swap", "zero", "delta-garbage", "base-garbage", "delta-garbage", "delta-notbase64", "delta-notbase64", "base-notbase64", "trailing-garbage", "trailing-entry", "trailing-foreign")}, I: []int64{u(), int64(r.IntN(1001)), int64(r.IntN(8))}})
 			p.Ops = append(p.Ops, core.Op{Task: 1, Kind: "get", I: []int64{p.Ops[len(p.Ops)-1].Int(0)}})
 		}
 	}
@@ -488,14 +488,14 @@ func (l c15) Exec(env *core.Env) *core.Result {
 					b = append(append(append([]byte{}, b...), '\n'), b...)
 				case "trailing-foreign":
 					b = append(append([]byte{}, b...), []byte(`{"foo":"bar"}`)...)
-				case "delta-garbage", "base-garbage":
+				case "delta-garbage", "base-garbage", "delta-notbase64", "base-notbase64":
 					// replace the encoded DER of one CRL inside the entry by bytes that are not a CRL
 					// (located by content, not by field name); only on a clean entry whose content is known
 					if len(e.cands) != 1 || e.cands[0] == nil || e.corrupt != "" {
 						continue
 					}
 					der := e.cands[0].base
-					if kind == "delta-garbage" {
+					if kind == "delta-garbage" || kind == "delta-notbase64" {
 						der = e.cands[0].delta
 					}
 					if der == nil {
@@ -507,6 +507,11 @@ func (l c15) Exec(env *core.Env) *core.Result {
 						continue
 					}
 					junk := []byte(base64.StdEncoding.EncodeToString(bytes.Repeat([]byte{0x30, 0x03, 0x02, 0x01, 0x01}, len(der)/5+1)[:len(der)]))
+					if strings.HasSuffix(kind, "notbase64") {
+						// still a JSON string, no longer base64: one character outside the alphabet, somewhere in it
+						junk = append([]byte{}, enc...)
+						junk[int(op.Int(1))%len(junk)] = ']'
+					}
 					b = bytes.Replace(b, enc, junk, 1)
 				case "flip":
 					if len(b) > 0 {
